@@ -20,9 +20,9 @@ from vlib import q
 from vlib.pat import Pat, returned
 from vlib.front import unparse, dotted, const_value, AnchorMissing
 from vlib.shape import Shape, Space, Ix, Q, D, BoolT, StrT, NoneT, SizeOf, UNK, is_unk, Arr, Rec, Tup, B
-from obligations.shape_tables import (model_attrs, axis_dir, provenance, mask_text, M, Tmpl, Chan, Samp, Loc, AMP, AMPWH, UM, Shank)
+from obligations.shape_tables import (flatten_masks, model_attrs, axis_dir, provenance, mask_text, M, Tmpl, Chan, Samp, Loc, AMP, AMPWH, UM, Shank)
 
-FLOOR = 47
+FLOOR = 37
 EXPLANATION = ('shape engine: TemplateModel.get_template is abstractly interpreted with its callees inline (_get_template_dense / _sparse, '
                '_find_best_channels, get_closest_channels, _unwhiten) over typed model attributes; every array is typed by the index space '
                'of each axis, the dimension of its elements and provenance tags (ptp over samples, permutation key and direction, masks); '
@@ -134,7 +134,7 @@ def run(ctx):
     if isinstance(dense_rec, Rec) and isinstance(dense_rec.fields.get('channel_ids'), Arr):
         sp = dense_rec.fields['channel_ids'].axes[0]
         prov = provenance(sp)
-        masks = [s.info.get('mask') for s in prov if s.kind == 'Sub' and s.info.get('mask')]
+        masks = flatten_masks([s.info.get('mask') for s in prov if s.kind == 'Sub' and s.info.get('mask')])
         txt = [mask_text(m) for m in masks]
         thr = [m for m in masks if isinstance(m[1], Q) and 'ptp:Samp' in m[1].tags and m[0] in ('GtE', 'Gt', 'LtE', 'Lt')]
         shank = [m for m in masks if isinstance(m[1], Ix) and m[1].space is Shank and isinstance(m[2], Ix) and m[2].space is Shank and m[0] == 'Eq']
@@ -170,6 +170,8 @@ def run(ctx):
             ctx.violated('C05.K2', fb, a, '`%s` replaces every FALSY threshold by the model default: an explicit threshold of 0 (keep all neighbouring channels) is ignored '
                          'when the model default is not 0' % unparse(a))
         elif isinstance(v, ast.IfExp) and q.simple_compare(v.test) and q.simple_compare(v.test)[1] in ('is not', 'is') and const_value(q.simple_compare(v.test)[2]) is None:
+            ctx.holds('C05.K2', fb, 'the model default replaces the threshold only when none (None) is given; 0 is honoured', a)
+        elif any(isinstance(i_, ast.If) and Pat().m('%s is None' % tp, i_.test) for i_ in fb.ancestors(a)):
             ctx.holds('C05.K2', fb, 'the model default replaces the threshold only when none (None) is given; 0 is honoured', a)
         else:
             ctx.undecided('C05.K2', fb, 'default substitution `%s` not recognised' % unparse(a), a)
@@ -211,7 +213,7 @@ def run(ctx):
     # ---- D1 sparse provenance
     if isinstance(sparse_rec, Rec) and isinstance(sparse_rec.fields.get('channel_ids'), Arr):
         prov = provenance(sparse_rec.fields['channel_ids'].axes[0])
-        masks = [s.info.get('mask') for s in prov if s.kind == 'Sub' and s.info.get('mask')]
+        masks = flatten_masks([s.info.get('mask') for s in prov if s.kind == 'Sub' and s.info.get('mask')])
         used = [m for m in masks if isinstance(m[1], Ix) and m[1].space is Chan and m[0] == 'NotEq' and -1 in (const_value(m[3].comparators[0]), const_value(m[3].left))]
         sig = [m for m in masks if isinstance(m[1], Q) and m[0] in ('Gt', 'GtE') and any(t.startswith('max:Samp') for t in m[1].tags)]
         roots = [s for s in prov if s.kind == 'base']
